@@ -128,6 +128,7 @@ class SnapshotActionContext(FrameCollectorContext, ActionContext):
                 LOG_MSG: log_msg,
             }, LocationAction.ActionType.Log))
             context.var_cache = self.var_cache
+            context._collection_config = self.collection_config
             log, watches, log_vars = context.process_log(log_msg)
             snapshot.log_msg = log
             for watch in watches:
